@@ -420,10 +420,13 @@ func (s *stepper) step(st mbt.Step) error {
 func finish(w *world, total int) *runObs {
 	w.goAuto()
 	dl := time.Now().Add(finishWait)
+	stuckOK := w.o.Delay == 0 && w.o.MaxSize > 1 // no time-outs: quiescence is "nothing moves any more"
+	last, lastChange := -1, time.Now()
 	for time.Now().Before(dl) {
 		streams, _, ckpts := w.snapshot()
-		n, bars := 0, 0
+		n, bars, tot := 0, 0, 0
 		for _, st := range streams {
+			tot += len(st)
 			for _, it := range st {
 				if it.T == "r" {
 					n++
@@ -433,6 +436,11 @@ func finish(w *world, total int) *runObs {
 			}
 		}
 		if n >= total && bars >= len(ckpts)*len(streams) {
+			break
+		}
+		if tot != last {
+			last, lastChange = tot, time.Now()
+		} else if stuckOK && time.Since(lastChange) > 80*time.Millisecond {
 			break
 		}
 		time.Sleep(300 * time.Microsecond)
@@ -530,9 +538,17 @@ func replay(bi int, beh []mbt.Step, in *mbt.Input, res *mbt.Result) {
 		viol(p, len(beh), what+divNote(diverged), o)
 		return
 	}
-	if p, what := o.complete(!useTimer && w.o.MaxSize > 1); what != "" {
-		viol(p, len(beh), what+divNote(diverged), o)
-		return
+	w.mu.Lock()
+	eoi := w.eoiSent
+	w.mu.Unlock()
+	if p, what, known := o.complete(!useTimer && w.o.MaxSize > 1, eoi); what != "" {
+		if known == "" {
+			viol(p, len(beh), what+divNote(diverged), o)
+			return
+		}
+		res.Violations = append(res.Violations, mbt.Violation{Property: p, Behaviour: bi, Step: len(beh), What: what, Known: known,
+			Observed: map[string]any{"streams": fmtStreams(o.streams), "read_order": fmt.Sprint(o.order)}})
+		res.Count("known:"+known, 1)
 	}
 	w.mu.Lock()
 	conc := w.maxConc
